@@ -59,6 +59,11 @@ Definition L_conn_start_accept := cl fn_conn_start_accept conn_start_accept.
 Definition L_conn_start_handle := inline_all lib3 (cl fn_conn_start_handle conn_start_handle).
 Definition L_host_newstream := cl fn_host_newstream host_newstream.
 
+Definition L_swarm_addconn := cl fn_swarm_addconn swarm_addconn.
+Definition L_swarm_listen_loop := cl fn_swarm_listen_loop swarm_listen_loop.
+Definition L_swarm_listen_conn := inline_all [("swarm_addconn", L_swarm_addconn)] (cl fn_swarm_listen_conn swarm_listen_conn).
+Definition L_swarm_dialaddr := cl fn_swarm_dialaddr swarm_dialaddr.
+
 Definition st_conn := mkSt Held Held Absent Absent 0 false None None [] false.   (* raw conn + scope given *)
 Definition st_raw := mkSt Held Absent Absent Absent 0 false None None [] false.    (* raw conn given, scope is the caller's *)
 Definition st_stream := mkSt Absent Absent Held Held 0 false None None [] false.
@@ -80,7 +85,11 @@ Definition entries : list (string * bool * st * list (list aev)) :=
    ("BasicHost.newStreamHandler", false, st_sstream, L_host_streamhandler);
    ("WebsocketTransport.Dial", true, st0, L_ws_dial);
    ("quic transport.Dial", true, st0, L_quic_dial);
-   ("quic listener.Accept iteration", true, st0, L_quic_accept)].
+   ("quic listener.Accept iteration", true, st0, L_quic_accept);
+   ("Swarm.addConn", true, st_conn, L_swarm_addconn);
+   ("Swarm.AddListenAddr accept-loop iteration", false, st0, L_swarm_listen_loop);
+   ("Swarm.AddListenAddr connection goroutine", false, st_conn, L_swarm_listen_conn);
+   ("Swarm.dialAddr", true, st0, L_swarm_dialaddr)].
 
 Definition entry_ok (e : string * bool * st * list (list aev)) : bool :=
   let '(_, vr, init, ps) := e in forallb (path_ok vr init) ps.
